@@ -430,6 +430,10 @@ func (s *Sim) start(c int) {
 		s.retd[c-1] = false
 		s.ctxDone[c-1] = false
 		s.ctxs[c-1], s.cancels[c-1] = context.WithCancel(context.Background())
+		if (c+s.ncalls[c-1]+s.cfg.ReadErrKind)%3 == 1 { // a context with a cause of its own
+			c2, cc := context.WithCancelCause(context.Background())
+			s.ctxs[c-1], s.cancels[c-1] = c2, func() { cc(errors.New("the operator gave up")) }
+		}
 		s.mu.Lock()
 		delete(s.firstTx, role)
 		delete(s.want, role)
